@@ -169,7 +169,13 @@ pub fn run(run: &Run) {
             for p in [Pipe::Enum, Pipe::LexFold] {
                 run.eval(1);
                 if let Err(msg) = crate::watch::case(s, || case(&f, p, s, expect.as_ref())) {
-                    run.violation(&format!("[{}] {}", f.name, msg), case_json(&f, p, s, expect.as_ref()), &[]);
+                    let mut fs = vec![];
+                    if let Some(x) = expect {
+                        if f.name == "han" && crate::props::c01::han_name_ends_with_copula_head(x) {
+                            fs.push("han-name-ending-in-first-character-of-a-two-character-copula".to_string());
+                        }
+                    }
+                    run.violation(&format!("[{}] {}", f.name, msg), case_json(&f, p, s, expect.as_ref()), &fs);
                 }
             }
         });
